@@ -175,8 +175,12 @@ def time_hits(eff, resp_issue_instant, now, slack):
                     order("bearer", sc["data"]["not_before"], sc["data"]["not_on_or_after"], a["enc"])
                     if sc["data"]["not_on_or_after"] is None or sc["data"]["not_before"] is not None:
                         comfortable = False     # not the web-SSO profile shape
-        if a["authn"]:
-            nooa("session", a["authn"][0]["session_not_on_or_after"], a["enc"])
+        # (every AuthnStatement's SessionNotOnOrAfter is a bound of the assertion; an assertion with several
+        # statements is not the web-SSO profile shape - this code base refuses it - so acceptance is not demanded)
+        for st_ in a["authn"] or []:
+            nooa("session", st_["session_not_on_or_after"], a["enc"])
+        if len(a["authn"] or []) > 1:
+            comfortable = False
     ii = wire.ts_epoch(resp_issue_instant)
     if wire.has_offset(resp_issue_instant):
         comfortable = False
